@@ -1,6 +1,6 @@
 (** C09 - Socket.IO encoding round-trips, matches the v5 format, leaves its input intact.
     This file holds statements only; every proof is `exact <lemma>`. *)
-From SioV Require Import Base.GoSem Sio.Json Sio.JsonProofs Sio.Header Sio.HeaderProofs Sio.Binary Sio.BinaryProofs Sio.Codec Sio.CodecProofs Sio.RoundtripProofs Sio.ReconProofs Sio.DecodeProofs Sio.PrescanProofs.
+From SioV Require Import Base.GoSem Sio.Json Sio.JsonProofs Sio.Header Sio.HeaderProofs Sio.Binary Sio.BinaryProofs Sio.Codec Sio.CodecProofs Sio.RoundtripProofs Sio.ReconProofs Sio.DecodeProofs Sio.PrescanProofs Sio.PlainProofs.
 
 (** Encode hands back the value it was given exactly as it was (every cell deconstruct overwrote
     with a placeholder is restored), for every JSON library, value tree of any depth, header and
@@ -234,3 +234,55 @@ Theorem C09_wire_is_v5_concrete :
   encode jprint jparse max_att h (Some x) = Ok e ->
   e_frames e = spec_frames jprint (base_type (h_type h)) (h_nsp h) (h_id h) (Some (shape x)).
 Proof. exact (wire_is_v5 jprint jparse jparse_jprint). Qed.
+
+(** decode after encode for packets WITHOUT attachments (the plain path of [decode]), instance
+    jprint / jparse, no hypothesis about the library (the parametric versions, under H1 H2 H3, are
+    [decode_encode_event_plain], [decode_encode_ack_plain], [decode_encode_payload] in
+    Sio/PlainProofs.v).  No [nofake] / [ty_ok] side condition here: nothing is substituted.
+    EVENT: one frame; fed to a fresh decoder it finishes at once with the same header and the
+    event name, and [decode] returns the arguments. *)
+Theorem C09_decode_encode_plain_concrete :
+  forall (max_att : Z) h x e tys name sargs,
+  cleanb x = true -> msorted x = true -> nobin x = true -> h_type h = 2%N ->
+  shape x = BArr (BStr name :: sargs) -> args_plain tys sargs = true ->
+  header_ok h ->
+  encode jprint jparse max_att h (Some x) = Ok e ->
+  exists p,
+    e_frames e = [encode_header h ++ p] /\ e_header e = h /\
+    feed jparse None 0 (e_frames e) = Ok ([(0%nat, (h, name, [p]))], None) /\
+    decode jprint jparse h [p] tys = Ok (views tys sargs).
+Proof.
+  exact (fun m => decode_encode_event_plain jprint jparse m jparse_jprint prescan_name jprint_arr_head).
+Qed.
+
+(** ACK without attachments. *)
+Theorem C09_decode_encode_ack_plain_concrete :
+  forall (max_att : Z) h x e tys sargs,
+  cleanb x = true -> msorted x = true -> nobin x = true -> h_type h = 3%N ->
+  shape x = BArr sargs -> args_plain tys sargs = true ->
+  header_ok h ->
+  encode jprint jparse max_att h (Some x) = Ok e ->
+  exists p,
+    e_frames e = [encode_header h ++ p] /\ e_header e = h /\
+    feed jparse None 0 (e_frames e) = Ok ([(0%nat, (h, [], [p]))], None) /\
+    decode jprint jparse h [p] tys = Ok (views tys sargs).
+Proof.
+  exact (fun m => decode_encode_ack_plain jprint jparse m jparse_jprint jprint_arr_head).
+Qed.
+
+(** CONNECT / CONNECT_ERROR (any type that carries no binary) with an object payload (a struct
+    or a map) decoded into one parameter. *)
+Theorem C09_decode_encode_payload_concrete :
+  forall (max_att : Z) h x e t kvs,
+  cleanb x = true -> msorted x = true -> nobin x = true ->
+  carries_binary (h_type h) = false ->
+  shape x = BObj kvs -> wtb t (BObj kvs) = true ->
+  header_ok h ->
+  encode jprint jparse max_att h (Some x) = Ok e ->
+  exists p,
+    e_frames e = [encode_header h ++ p] /\ e_header e = h /\
+    feed jparse None 0 (e_frames e) = Ok ([(0%nat, (h, [], [p]))], None) /\
+    decode jprint jparse h [p] [t] = Ok [view_ty t (BObj kvs)].
+Proof.
+  exact (fun m => decode_encode_payload jprint jparse m jparse_jprint jprint_obj_head).
+Qed.
